@@ -147,3 +147,61 @@ pub fn scalar_specials(r: &BigUint) -> Vec<BigUint> {
 pub fn is_zero(x: &BigUint) -> bool {
     x.is_zero()
 }
+
+/// In-memory (Montgomery) residues with LIMB PATTERNS, for a prime p of `limbs` 64-bit limbs: every limb is 0, 2^64-1 or
+/// the corresponding limb of p, in at most `runs` runs (X..X Y..Y Z..Z from the low limb up); with `variants`, also each
+/// such residue +1 and -1.  Hand-written carry / borrow chains, comparisons that look at some limbs only and lazy
+/// reductions go wrong where a limb is saturated, equals the modulus limb or equals the other operand's limb while a
+/// carry or borrow arrives from below - on random elements that has probability 2^-64 per limb.  Only residues < p.
+pub fn limb_pattern_residues(p: &BigUint, limbs: usize, runs: usize, variants: bool) -> Vec<BigUint> {
+    let max = pow2(64) - 1u32;
+    let plimb = |i: usize| (p >> (64 * i)) & &max;
+    let choice = |c: usize, i: usize| -> BigUint {
+        match c {
+            0 => BigUint::zero(),
+            1 => max.clone(),
+            _ => plimb(i),
+        }
+    };
+    let mut out = vec![];
+    // run boundaries 0 < b1 <= b2 <= limbs
+    for b1 in 1..=limbs {
+        for b2 in b1..=limbs {
+            if runs < 3 && b2 != limbs {
+                continue;
+            }
+            for x in 0..3 {
+                for y in 0..3 {
+                    for z in 0..3 {
+                        if runs < 2 && b1 != limbs {
+                            continue;
+                        }
+                        let mut m = BigUint::zero();
+                        for i in 0..limbs {
+                            let c = if i < b1 { x } else if i < b2 { y } else { z };
+                            m += choice(c, i) << (64 * i);
+                        }
+                        if &m < p {
+                            out.push(m.clone());
+                        }
+                        if variants {
+                            if &(&m + 1u32) < p {
+                                out.push(&m + 1u32);
+                            }
+                            if !m.is_zero() && &(&m - 1u32) < p {
+                                out.push(&m - 1u32);
+                            }
+                        }
+                    }
+                }
+            }
+        }
+    }
+    dedup(out)
+}
+
+/// the field VALUES whose Montgomery residue (value * 2^(64 limbs) mod p) is the given residue
+pub fn values_of_residues(p: &BigUint, limbs: usize, residues: &[BigUint]) -> Vec<BigUint> {
+    let rinv = crate::refmodel::modinv(&(pow2(64 * limbs) % p), p).expect("R invertible");
+    residues.iter().map(|m| (m * &rinv) % p).collect()
+}
